@@ -82,12 +82,13 @@ MANIFEST = {
              "C02_static_no_panic, C02_static_deq_terminates, C02_strings_no_panic, C02_stranymap_no_panic, C02_reflect_no_panic "
              "(new model Model/ReflectIns.v of ReflectInspector.Get), each with its domain explicit, and C02_refuted_* witnesses for "
              "the remaining panic classes (nil pointer map key in Loop, typed nil pointer sources of Assign, typed nil operands of "
-             "the static and strings inspectors, the pinned reflect index). Hostile correspondence streams run the real generated, "
+             "the static inspector) and for the repaired ones (the pinned reflect index, typed nil pointers handed to the strings "
+             "inspector - C02_strings_no_panic now covers every argument). Hostile correspondence streams run the real generated, "
              "shipped and built-in inspectors on ~58k hostile calls (quick); observation ok / PANIC / ABORT, spec ok, model = "
              "prediction of the existing models."),
     "note": ("Trusted: Coq kernel, extraction, Go harness, lib/isolate.py (process isolation by bisection). The models are tied to the "
-             "code by the correspondence streams (panic/no-panic granularity here, full observations in C01-C19). Four defects "
+             "code by the correspondence streams (panic/no-panic granularity here, full observations in C01-C19). Five defects "
              "repaired (reflect index, reflect embedded nil pointer, Set with a typed nil container pointer, map[string]any Set with "
-             "a typed nil *string), six classes listed as open findings. No axioms."),
+             "a typed nil *string, typed nil pointers handed to the strings inspector), five classes listed as open findings. No axioms."),
     "technique": "Rocq aggregate theorems over existing emitter models + hostile differential stream with process isolation",
 }
